@@ -432,6 +432,40 @@ func TestVerifC05(t *testing.T) {
 				}
 			}
 		}
+		// the decoded VAA owns its bytes: receive buffers are reused by their owners (gossip, the store's value callbacks) after the
+		// decoder has returned; a VAA that is kept must not change then, and growing its payload must not write behind the input
+		if err == nil && i%2 == 0 {
+			buf := make([]byte, len(enc)+48)
+			copy(buf, enc)
+			for j := len(enc); j < len(buf); j++ {
+				buf[j] = 0xEE
+			}
+			if k, kerr := Unmarshal(buf[:len(enc)]); kerr == nil {
+				pay := append([]byte{}, k.Payload...)
+				dig := k.SigningMsg()
+				sig0 := []byte{}
+				if len(k.Signatures) > 0 {
+					sig0 = append(sig0, k.Signatures[0].Signature[:]...)
+				}
+				k.Payload = append(k.Payload, 0x11, 0x22, 0x33)
+				k.Payload = k.Payload[:len(pay)]
+				behind := false
+				for j := len(enc); j < len(buf); j++ {
+					if buf[j] != 0xEE {
+						behind = true
+					}
+				}
+				for j := 0; j < len(enc); j++ {
+					buf[j] ^= 0xA5
+				}
+				if !bytes.Equal(k.Payload, pay) || k.SigningMsg() != dig || (len(k.Signatures) > 0 && !bytes.Equal(k.Signatures[0].Signature[:], sig0)) {
+					mon = append(mon, fmt.Sprintf("a decoded VAA changed when the caller overwrote the buffer it had been decoded from (payload %d bytes): the decoder keeps pointing into its input", len(pay)))
+				}
+				if behind {
+					mon = append(mon, "appending to the decoded payload wrote into the caller's memory behind the input bytes")
+				}
+			}
+		}
 		o.emit(map[string]interface{}{"k": "rt", "plen": plen, "nsig": ns, "in": hex.EncodeToString(enc), "mon": mon})
 		verifDecodeCase(o, "valid", enc)
 		if i%3 != 0 && !verifThorough() {
